@@ -221,7 +221,7 @@ def reclaim(ctx):
         ctx.broken("rcu_guard::unlock not instantiated")
     for f in fs:
         try:
-            ps = all_paths(f, unroll=1)
+            ps = all_paths(f)
         except TooManyPaths:
             ctx.broken("too many paths in " + f.label)
         n_reclaim = 0
